@@ -7,6 +7,7 @@ package c11
 import (
 	"fmt"
 	"hash/fnv"
+	"strings"
 
 	"github.com/Tom-Johnston/mamba/graph"
 
@@ -22,16 +23,20 @@ func init() {
 	engine.Register(&engine.Property{
 		ID:    "C11",
 		Level: "exploration",
-		Rule: "graph.IsPlanar(g) on dense and sparse representations of: every isomorphism class on n <= 8 vertices (quick; n = 9 and 1/16 of n = 10 in thorough) under all (n <= 6; n <= 7 thorough) or seeded relabellings; " +
+		Rule: "graph.IsPlanar(g) on dense and sparse representations (filled field by field; a sixth of them with edge bytes > 1 and spare capacity, an eighth passed as struct values instead of pointers) of: every isomorphism class on n <= 8 vertices (quick; n = 9 and 1/16 of n = 10 in thorough) under all (n <= 6; n <= 7 thorough) or seeded relabellings; " +
 			"graphs planar by construction with their rotation system (stacked and flip-randomised triangulations, random 2-connected plane graphs, outerplanar graphs, grids with diagonals, block trees, their random subgraphs, subdivisions, pendant / isolated vertices) up to n = 200; " +
 			"graphs non-planar by construction with their Kuratowski subgraph (subdivided K5 / K3,3 overlaid on, identified with or linked to large planar graphs, in labellings that put the subdivision first, last or anywhere); " +
 			"named families, random sparse graphs, rim cycles with many-attachment hubs and near-triangulations (planar +/- a few edges) judged by the reference DMP with a checked certificate; plus certificate-free metamorphic runs (relabel, subdivide, pendant, isolated, edge deletion). " +
+			"Every implementation of the Graph interface: every sixteenth (thorough: every eighth) relabelling of the class sweeps and a sixth (thorough: a third) of the certified constructed graphs on up to 32 (100) vertices are ALSO presented through a seeded chain of 1..3 live views (graph.InducedSubgraph of a larger graph with junk vertices or as a relabelling, graph.Complement of the complement, views of views) over a dense or sparse base [calls:view, view:induced, view:complement, view:nested]; one call in 64 (one in four on views) is repeated on the same value and must give the same answer [repeat-call]. " +
+			"Values with a history (view sessions, n = 6..30, to 90 in thorough): an editable dense / sparse host holding a graph near the planar boundary or its complement, 3..6 views of it created up front (the host itself, induced / complement chains, more created mid-way); 8..16 rounds of: IsPlanar on most values (some get Neighbours / BiconnectedComponents / Degrees calls instead, a quarter are asked twice), then ONE edit of the host through the EditableGraph interface: move an edge / re-route an end (N and M stay), 2-switch (degrees stay too), add / remove an edge, no-op edit, append a vertex, remove a vertex that no view lists, replace a vertex by one of the same degree (N and M stay), split an edge, revert the previous edit; edits prefer Kuratowski edges so the answer flips often. After every edit the host is read back and compared with the model (a host that differs is not judged), and every answer is judged against a certificate verified for the graph the value represents NOW [session:requery-after-edit = a value asked before and after an edit; session:requery:truth-changed,N+M-same = the certified answer changed across edits that kept N() and M()]. " +
 			"A verdict is judged only against a certificate verified for that labelled graph (or for the class representative of which it is an explicit relabelling). " +
 			"non-trivial = n >= 6 and some block has >= 5 vertices (the DMP loop runs); distinct = hash of the labelled adjacency matrix",
 		Assumptions: []string{
 			"a rotation system whose faces give V - E + F = 2 on every component is a plane embedding; a subgraph that is a subdivision of K5 or K3,3 excludes planarity; a simple planar graph on n >= 3 vertices has at most 3n - 6 edges (harness checkers CheckRotation / CheckKuratowski, self-checked on all rotation systems of K4, K5, K3,3 and against A005470)",
 			"planarity is invariant under relabelling: in the class sweeps the certificate is verified for the class representative and the relabelled graphs are explicit images of it",
 			"rg.Dense / rg.Sparse fill the exported fields of the library's graph types consistently (no constructor under test)",
+			"graph.InducedSubgraph(g, V) and graph.Complement(g) are documented as live views ('reflect the current state of g', 'updating the original graph changes the complement'): a view denotes the induced subgraph / complement of what its underlying graph is at the time of the call; only edits under which every V keeps its meaning are used (vertices are appended, and removed only at indices above every V)",
+			"in the view sessions the model is edited in parallel with the library host and the host is read back through all five observers after every edit; a host that differs from the model ends the session without a verdict (the edit operations are C05's subject)",
 			"search.All is used as an input source for n >= 9 only (its class count is compared with the Polya count for n = 9)",
 			"termination is judged as bounded progress: a call that consumes more than the CPU budget of the engine (30 CPU-s; correct runs take < 50 ms at n = 200) is reported by the engine as <key>|budget",
 		},
@@ -42,7 +47,14 @@ func init() {
 		RequiredObs: []string{"calls:dense", "calls:sparse", "cert:rotation", "cert:K5", "cert:K3,3", "cert:edge-bound",
 			"classes_n=8", "family:stacked", "family:flipped", "family:plane", "family:outerplanar", "family:grid", "family:blocktree",
 			"family:overlay", "family:nearplanar", "family:random", "family:hubs", "family:named", "verdict:planar", "verdict:nonplanar",
-			"derived:subgraph", "derived:subdivide", "derived:pendant+isolated", "metamorphic:pairs"},
+			"derived:subgraph", "derived:subdivide", "derived:pendant+isolated", "metamorphic:pairs",
+			"calls:view", "view:induced", "view:complement", "view:nested", "view:over-dense", "view:over-sparse", "view:of-a-larger-graph",
+			"calls:dense-variant", "calls:sparse-variant", "calls:struct-by-value", "repeat-call", "repeat-call:view",
+			"calls:view-session", "session:calls-on-host", "session:calls-on-view", "session:host-dense", "session:host-sparse", "session:host-is-complement",
+			"session:requery-after-edit", "session:requery-after-edit,N+M-same", "session:requery:truth-changed", "session:requery:truth-changed,N+M-same",
+			"session:requery:truth-changed,N+M+degrees-same", "session:requery:truth-changed,N-changed", "session:first-query-after-edits", "session:repeat-call",
+			"session:other-observer-before-edit", "session:edit:move-edge", "session:edit:2-switch", "session:edit:add-edge", "session:edit:remove-edge",
+			"session:edit:no-op", "session:edit:add-vertex", "session:edit:remove-vertex", "session:edit:replace-vertex", "session:edit:split-edge", "session:edit:revert"},
 	})
 }
 
@@ -88,25 +100,115 @@ func certJSON(d map[string]interface{}, cert *planarity.Cert, kind string) {
 	}
 }
 
-// call runs IsPlanar on one representation.  ok = false after a panic (reported).
-func (m *mon) call(g *rg.G, id string, repr int, expect string, detail func(repr string) interface{}) (res, ok bool) {
-	c := m.c
-	var h graph.Graph
-	name := "dense"
-	if repr == dense {
-		h = g.Dense()
-	} else {
-		h = g.Sparse()
-		name = "sparse"
+// reprName is the name of a representation bit in observation counters.
+func reprName(repr int) string {
+	switch repr {
+	case dense:
+		return "dense"
+	case sparse:
+		return "sparse"
 	}
-	pi := c.Call("IsPlanar|"+id+"|"+name, func() { res = graph.IsPlanar(h) })
-	c.Obs("calls:"+name, 1)
+	return "view"
+}
+
+// call runs IsPlanar on one representation: a DenseGraph or SparseGraph
+// filled field by field (a share of them in the variants rg.DenseVariant /
+// rg.SparseVariant: edge bytes > 1, spare capacity), or - repr == view - a
+// random chain of the library's live views (InducedSubgraph, Complement, views
+// of views) over a dense / sparse base that contains g (wrapPlan).  One call
+// in 64 (every fourth one on a view) is repeated on the same value: both
+// answers must agree.  ok = false after a panic or an unstable answer
+// (reported).  describe() describes the value.
+func (m *mon) call(g *rg.G, id string, repr int, expect string, detail func(repr string) interface{}) (res, ok bool, describe func() string) {
+	c := m.c
+	hv := hashID(id)
+	var h graph.Graph
+	var build func()
+	name := reprName(repr)
+	describe = func() string { return name }
+	switch repr {
+	case dense:
+		if k := int(hv >> 8 % 12); k >= 10 {
+			h = g.DenseVariant(k)
+			c.Obs("calls:dense-variant", 1)
+		} else {
+			h = g.Dense()
+		}
+	case sparse:
+		if k := int(hv >> 8 % 12); k >= 10 {
+			h = g.SparseVariant(k)
+			c.Obs("calls:sparse-variant", 1)
+		} else {
+			h = g.Sparse()
+		}
+	}
+	// DenseGraph and SparseGraph have value receivers for all five observers: a struct VALUE is a Graph as well
+	if repr != view && hv>>12%8 == 0 {
+		switch x := h.(type) {
+		case *graph.DenseGraph:
+			h = *x
+		case *graph.SparseGraph:
+			h = *x
+		}
+		name += " (struct value)"
+		c.Obs("calls:struct-by-value", 1)
+	}
+	if repr == view {
+		r := c.Rand("view", int(hv>>20))
+		base, ops := wrapPlan(r, g)
+		lib, over := libBase(r, base)
+		name = "view " + chainShape(ops)
+		describe = func() string {
+			d := fmt.Sprintf("%s = %s over a %s graph on %d vertices", name, chainFull(ops), over, base.N)
+			if base.N <= 62 {
+				d += " (graph6 " + base.G6() + ")"
+			}
+			return d
+		}
+		build = func() { h = applyChain(lib, ops) }
+		obsChain(c, ops)
+		if strings.HasPrefix(over, "dense") {
+			c.Obs("view:over-dense", 1)
+		} else {
+			c.Obs("view:over-sparse", 1)
+		}
+		if base.N > g.N {
+			c.Obs("view:of-a-larger-graph", 1)
+		}
+	}
+	pi := c.Call("IsPlanar|"+id+"|"+name, func() {
+		if build != nil {
+			build()
+		}
+		res = graph.IsPlanar(h)
+	})
+	c.Obs("calls:"+reprName(repr), 1)
 	if pi != nil {
 		c.Obs("panics", 1)
-		c.Violation("IsPlanar|panic|"+engine.SiteNoLine(pi.Site)+"|"+id, detail(name), pi.String(), expect)
-		return false, false
+		key := "IsPlanar|panic|" + engine.SiteNoLine(pi.Site) + "|" + id
+		if repr == view {
+			key += "|" + name
+		}
+		c.Violation(key, detail(describe()), pi.String(), expect)
+		return false, false, describe
 	}
-	return res, true
+	if hv%64 == 0 || (repr == view && hv%4 == 0) {
+		var again bool
+		pi := c.Call("IsPlanar|"+id+"|"+name+"|again", func() { again = graph.IsPlanar(h) })
+		c.Obs("repeat-call", 1)
+		c.Obs("repeat-call:"+reprName(repr), 1)
+		if pi != nil {
+			c.Obs("panics", 1)
+			c.Violation("IsPlanar|panic|"+engine.SiteNoLine(pi.Site)+"|second call|"+id+"|"+name, detail(describe()), pi.String()+" in the second call on the same value", expect)
+			return false, false, describe
+		}
+		if again != res {
+			c.Violation("IsPlanar|unstable|"+id+"|"+name, detail(describe()), fmt.Sprintf("IsPlanar = %v, then IsPlanar = %v on the same unchanged value", res, again),
+				"the same answer for the same graph (IsPlanar is a function of the graph)")
+			return res, false, describe
+		}
+	}
+	return res, true, describe
 }
 
 // judge compares IsPlanar(g) in the requested representations with the
@@ -117,11 +219,11 @@ func (m *mon) judge(g *rg.G, truth bool, kind string, reprs int, confirm func() 
 	id := gid(g)
 	expect := fmt.Sprintf("IsPlanar = %v (certificate verified: %s)", truth, kind)
 	verdict = truth
-	for _, rp := range []int{dense, sparse} {
+	for _, rp := range []int{dense, sparse, view} {
 		if reprs&rp == 0 {
 			continue
 		}
-		got, ok := m.call(g, id, rp, expect, detail)
+		got, ok, describe := m.call(g, id, rp, expect, detail)
 		c.Eval(1)
 		if !ok {
 			return got, false
@@ -136,15 +238,15 @@ func (m *mon) judge(g *rg.G, truth bool, kind string, reprs int, confirm func() 
 					return got, false
 				}
 			}
-			name := "dense"
-			if rp == sparse {
-				name = "sparse"
-			}
 			what := "planar-reported-nonplanar"
 			if got {
 				what = "nonplanar-reported-planar"
 			}
-			c.Violation("IsPlanar|wrong|"+what+"|"+id, detail(name), fmt.Sprintf("IsPlanar = %v", got), expect)
+			key := "IsPlanar|wrong|" + what + "|" + id
+			if rp == view {
+				key += "|" + strings.SplitN(describe(), " =", 2)[0]
+			}
+			c.Violation(key, detail(describe()), fmt.Sprintf("IsPlanar = %v", got), expect)
 			return got, false
 		}
 	}
@@ -219,6 +321,10 @@ func (m *mon) certified(label string, g *rg.G, ct *planarity.Cert, reprs int) (v
 	c.Obs("cert:"+kind, 1)
 	m.sizeObs(g)
 	m.nontrivial(g)
+	// one certified graph in six (three in thorough) is presented through a chain of live views as well
+	if (g.N*7+g.M())%c.Pick(6, 3) == 0 && g.N <= c.Pick(32, 100) {
+		reprs |= view
+	}
 	return m.judge(g, ct.Planar, kind, reprs, nil, func(repr string) interface{} {
 		d := map[string]interface{}{"workload": label, "repr": repr}
 		graphJSON(d, g)
@@ -258,6 +364,7 @@ func run(c *engine.Ctx) {
 	m.nonplanarFamilies()
 	m.referenceJudged()
 	m.metamorphic()
+	m.viewSessions()
 }
 
 func finish(s *engine.Super) {
@@ -357,6 +464,9 @@ func (m *mon) sweepClass(g *rg.G, nperm int, r *engine.Rng, reprs int) {
 			if idx%2 == 1 {
 				rp = sparse
 			}
+		}
+		if idx%16 == 15 || (c.Thorough() && idx%8 == 3) {
+			rp |= view
 		}
 		c.Obs("relabellings", 1)
 		hc := ct
@@ -1036,7 +1146,7 @@ func (m *mon) metamorphic() {
 						return d
 					}
 				}
-				base, ok := m.call(g, id, dense, "IsPlanar returns", det("base", nil))
+				base, ok, _ := m.call(g, id, dense, "IsPlanar returns", det("base", nil))
 				if !ok {
 					continue
 				}
@@ -1046,7 +1156,7 @@ func (m *mon) metamorphic() {
 					c.Obs("metamorphic:base_nonplanar", 1)
 				}
 				check := func(rel string, h *rg.G, repr int, mustEqual bool) bool {
-					got, ok := m.call(h, gid(h), repr, "IsPlanar returns", det(rel, h))
+					got, ok, _ := m.call(h, gid(h), repr, "IsPlanar returns", det(rel, h))
 					if !ok {
 						return false
 					}
